@@ -25,7 +25,7 @@ EXTENDS Naturals, Sequences, TLC
 Repaired == [tmpInDest |-> TRUE, pathAsGiven |-> TRUE]
 Original == [tmpInDest |-> FALSE, pathAsGiven |-> FALSE]
 
-UrlSyntaxNames == {"hash", "query", "semi", "colon"}   \* '#', '?', ';', ':' in the file name
+UrlSyntaxNames == {"hash", "query", "semi", "colon", "scheme"}   \* '#', '?', ';', ':' (also after a scheme word) in the file name
 
 FsInit(existing) ==
   [named |-> IF existing THEN "old" ELSE "absent", other |-> FALSE, tmp |-> "none",
@@ -75,7 +75,10 @@ FsEvent(V, fs, e, nameClass) ==
       n == CASE e.ev = "mkstemp" -> IF fs.pc = "start" /\ e.samedir = V.tmpInDest THEN Mkstemp(V, fs) ELSE bad
              [] e.ev = "write" /\ e.role = "tmp" ->
                   IF fs.pc = "writing" THEN (IF e.failed THEN Fail(WriteTmp(fs)) ELSE WriteTmp(fs)) ELSE bad
-             [] e.ev = "close" /\ e.role = "tmp" -> IF fs.pc = "writing" THEN CloseTmp(fs)
+             \* closing flushes what is buffered: it may fail too (and still closes the file); in the
+             \* clean-up after a failure it may fail AGAIN - the temporary file is removed all the same
+             [] e.ev = "close" /\ e.role = "tmp" -> IF fs.pc = "writing"
+                                                    THEN (IF e.failed THEN Fail([fs EXCEPT !.tmp = "closed"]) ELSE CloseTmp(fs))
                                                     ELSE IF fs.pc = "failed" THEN [fs EXCEPT !.tmp = "closed"]
                                                     ELSE bad
              [] e.ev = "move" -> IF fs.pc = "closed" THEN (IF e.failed THEN Fail(fs) ELSE Rename(V, fs, nameClass)) ELSE bad
@@ -84,7 +87,7 @@ FsEvent(V, fs, e, nameClass) ==
              [] e.ev = "write" /\ e.role # "tmp" ->
                   IF fs.pc = "copying" THEN (IF e.failed THEN Fail(fs) ELSE fs) ELSE bad
              [] e.ev = "close" /\ e.role # "tmp" ->
-                  IF fs.pc = "copying" THEN CopyClose(V, fs, nameClass)
+                  IF fs.pc = "copying" THEN (IF e.failed THEN Fail(fs) ELSE CopyClose(V, fs, nameClass))
                   ELSE IF fs.pc = "failed" THEN fs ELSE bad
              [] e.ev = "unlink" -> IF fs.pc = "copying" THEN Unlink(fs)
                                    ELSE IF fs.pc = "failed" THEN [fs EXCEPT !.tmp = "none"]   \* clean-up
